@@ -24,6 +24,7 @@ mod clientread;
 mod quotefetch;
 mod replication;
 mod fullglue;
+mod padsig;
 
 use std::path::PathBuf;
 
@@ -55,6 +56,7 @@ fn main() {
         ("QuoteFetch", quotefetch::generate),
         ("Replication", replication::generate),
         ("FullGlue", fullglue::generate),
+        ("PadSig", padsig::generate),
     ];
     let mut failed = false;
     for (name, g) in gens {
